@@ -116,6 +116,8 @@ class Str:
     def __repr__(self):
         if self.kind == "var":
             return "<%s>" % self.parts[0]
+        if self.kind == "raw":
+            return "<raw %s>" % self.parts[0]
         if self.kind == "cat":
             return "".join(p if isinstance(p, str) else repr(p) for p in self.parts)
         if self.kind == "join":
@@ -126,6 +128,19 @@ class Str:
 
 def label_var(name):
     return Str("var", (name,))
+
+
+def raw_label(name):
+    """A label that may carry surrounding whitespace (not yet normalised)."""
+    return Str("raw", (name,))
+
+
+def has_raw(v) -> bool:
+    if isinstance(v, Str):
+        if v.kind == "raw":
+            return True
+        return any(has_raw(p) for p in v.parts)
+    return False
 
 
 class Tup:
@@ -1668,6 +1683,8 @@ class Interp:
             if m == "strip" and not args:
                 if recv.kind == "var":
                     return recv  # generic labels are already normalised (precondition of every property)
+                if recv.kind == "raw":
+                    return Str("var", ("strip(%s)" % recv.parts[0],))  # normalising a raw label yields a normalised one
                 if recv.kind == "cat":
                     parts = list(recv.parts)
                     while parts and isinstance(parts[0], str):
